@@ -38,6 +38,7 @@ func verif_same(a, b any) bool
 func verif_raw(a any) int
 func verif_calls(name string) int
 func verif_lastarg(name string, i int) int
+func verif_lastargn(name string, i int, k int) int
 func verif_lastres(name string) int
 func verif_lastresn(name string, k int) int
 `
@@ -50,23 +51,24 @@ type clauseInfo struct {
 }
 
 type Engine struct {
-	repo      string
-	fset      *token.FileSet
-	prog      *ssa.Program
-	pkgs      map[string]*packages.Package
-	ssaPkgs   map[string]*ssa.Package
-	typPkgs   map[string]*types.Package
-	contracts map[string]*Contract // callee key -> contract
-	cfiles    []*ContractFile
-	clauses   map[*Clause]*clauseInfo
-	synDecls  map[string]*clauseInfo // synthetic func name -> decl
-	specFuncs map[string]bool
-	axioms    map[string][]*Clause // pkg path -> axioms ("" = global/ext)
-	lemmas    map[string][]*Clause
-	pureFuncs map[string]bool // callee keys declared pure (UF of args+epoch)
-	warnings  []string
-	synCount  int
-	tmpFiles  []string
+	repo          string
+	fset          *token.FileSet
+	prog          *ssa.Program
+	pkgs          map[string]*packages.Package
+	ssaPkgs       map[string]*ssa.Package
+	typPkgs       map[string]*types.Package
+	contracts     map[string]*Contract // callee key -> contract
+	cfiles        []*ContractFile
+	clauses       map[*Clause]*clauseInfo
+	synDecls      map[string]*clauseInfo // synthetic func name -> decl
+	specFuncs     map[string]bool
+	axioms        map[string][]*Clause // pkg path -> axioms ("" = global/ext)
+	lemmas        map[string][]*Clause
+	pureFuncs     map[string]bool // callee keys declared pure (UF of args+epoch)
+	warnings      []string
+	synCount      int
+	curTypeParams string
+	tmpFiles      []string
 }
 
 // isRigid: the pure function does not depend on the heap (declared with //@ rigid).
@@ -213,6 +215,64 @@ func recvTypeText(fd *ast.FuncDecl) string {
 	return t
 }
 
+// typeParamsText: the type parameter list ("[D Duty]") a synthetic clause function needs when the function under
+// contract is a method of a generic type (or itself generic); "" otherwise.
+func typeParamsText(fd *ast.FuncDecl, files map[string]*ast.File) string {
+	if fd.Recv == nil || len(fd.Recv.List) == 0 {
+		if fd.Type.TypeParams != nil {
+			var names []string
+			return "[" + fieldListText(fd.Type.TypeParams, "_tp", &names) + "]"
+		}
+		return ""
+	}
+	t := fd.Recv.List[0].Type
+	if st, ok := t.(*ast.StarExpr); ok {
+		t = st.X
+	}
+	var base ast.Expr
+	var args []ast.Expr
+	switch ix := t.(type) {
+	case *ast.IndexExpr:
+		base, args = ix.X, []ast.Expr{ix.Index}
+	case *ast.IndexListExpr:
+		base, args = ix.X, ix.Indices
+	default:
+		return ""
+	}
+	bid, ok := base.(*ast.Ident)
+	if !ok {
+		return ""
+	}
+	var constraints []ast.Expr
+	for _, name := range sortedKeys(files) {
+		for _, d := range files[name].Decls {
+			gd, ok := d.(*ast.GenDecl)
+			if !ok {
+				continue
+			}
+			for _, sp := range gd.Specs {
+				ts, ok := sp.(*ast.TypeSpec)
+				if !ok || ts.Name.Name != bid.Name || ts.TypeParams == nil {
+					continue
+				}
+				for _, f := range ts.TypeParams.List {
+					for range f.Names {
+						constraints = append(constraints, f.Type)
+					}
+				}
+			}
+		}
+	}
+	if len(constraints) != len(args) {
+		return ""
+	}
+	var ps []string
+	for i, a := range args {
+		ps = append(ps, types.ExprString(a)+" "+types.ExprString(constraints[i]))
+	}
+	return "[" + strings.Join(ps, ", ") + "]"
+}
+
 func (e *Engine) newSynName(kind string) string {
 	e.synCount++
 	return fmt.Sprintf("verif_%s_%d", kind, e.synCount)
@@ -226,7 +286,7 @@ func (e *Engine) genClause(sf *synFile, c *Clause, paramText string) error {
 	}
 	c.GoText = g
 	c.SynName = e.newSynName(c.Kind)
-	fmt.Fprintf(&sf.body, "//line %s:%d\nfunc %s(%s) bool { return %s }\n", c.File, c.Line, c.SynName, paramText, g)
+	fmt.Fprintf(&sf.body, "//line %s:%d\nfunc %s%s(%s) bool { return %s }\n", c.File, c.Line, c.SynName, e.curTypeParams, paramText, g)
 	return nil
 }
 
@@ -313,6 +373,7 @@ func (e *Engine) prepareRepoPackage(rel string, overlay map[string][]byte) error
 		if firstSrc == "" {
 			firstSrc = c.SrcFile
 		}
+		e.curTypeParams = typeParamsText(fd, files)
 		switch {
 		case c.RecvType == "":
 			c.CalleeKey = pkgPath + "." + c.FuncName
@@ -386,7 +447,7 @@ func (e *Engine) prepareRepoPackage(rel string, overlay map[string][]byte) error
 				inner = m[4 : len(m)-1]
 			}
 			name := e.newSynName("mod")
-			fmt.Fprintf(&sf.body, "//line %s:%d\nfunc %s(%s) { _ = %s }\n", c.File, c.Line, name, pre, inner)
+			fmt.Fprintf(&sf.body, "//line %s:%d\nfunc %s%s(%s) { _ = %s }\n", c.File, c.Line, name, e.curTypeParams, pre, inner)
 			e.synDecls[fmt.Sprintf("%s#mod%d", c.CalleeKey, i)] = &clauseInfo{params: preNames, decl: &ast.FuncDecl{Name: ast.NewIdent(name)}}
 		}
 		for i, m := range c.Shared {
@@ -398,14 +459,16 @@ func (e *Engine) prepareRepoPackage(rel string, overlay map[string][]byte) error
 				inner = m[4 : len(m)-1]
 			}
 			name := e.newSynName("mod")
-			fmt.Fprintf(&sf.body, "//line %s:%d\nfunc %s(%s) { _ = %s }\n", c.File, c.Line, name, pre, inner)
+			fmt.Fprintf(&sf.body, "//line %s:%d\nfunc %s%s(%s) { _ = %s }\n", c.File, c.Line, name, e.curTypeParams, pre, inner)
 			e.synDecls[fmt.Sprintf("%s#shared%d", c.CalleeKey, i)] = &clauseInfo{params: preNames, decl: &ast.FuncDecl{Name: ast.NewIdent(name)}}
 		}
 		if prev, dup := e.contracts[c.CalleeKey]; dup {
 			return fmt.Errorf("%s:%d: duplicate contract for %s (also %s:%d)", c.File, c.Line, c.CalleeKey, prev.File, prev.Line)
 		}
 		e.contracts[c.CalleeKey] = c
+		e.curTypeParams = ""
 	}
+	e.curTypeParams = ""
 	if firstSrc == "" {
 		for _, n := range sortedKeys(files) {
 			firstSrc = n
@@ -551,7 +614,7 @@ func (e *Engine) prepareExtern(paths []string) (string, map[string]string, error
 					inner = m[4 : len(m)-1]
 				}
 				name := e.newSynName("mod")
-				fmt.Fprintf(&sf.body, "//line %s:%d\nfunc %s(%s) { _ = %s }\n", c.File, c.Line, name, pre, inner)
+				fmt.Fprintf(&sf.body, "//line %s:%d\nfunc %s%s(%s) { _ = %s }\n", c.File, c.Line, name, e.curTypeParams, pre, inner)
 				e.synDecls[fmt.Sprintf("%s#mod%d", c.CalleeKey, i)] = &clauseInfo{params: preNames, decl: &ast.FuncDecl{Name: ast.NewIdent(name)}}
 			}
 			body.WriteString(sf.body.String())
@@ -801,7 +864,14 @@ func (e *Engine) findFunction(c *Contract) *ssa.Function {
 	ms := e.prog.MethodSets.MethodSet(t)
 	for i := 0; i < ms.Len(); i++ {
 		if ms.At(i).Obj().Name() == c.FuncName {
-			return e.prog.MethodValue(ms.At(i))
+			if f := e.prog.MethodValue(ms.At(i)); f != nil {
+				return f
+			}
+			// methods of generic types: the generic body (type parameters stay abstract)
+			if fo, ok := ms.At(i).Obj().(*types.Func); ok {
+				return e.prog.FuncValue(fo)
+			}
+			return nil
 		}
 	}
 	return nil
